@@ -62,7 +62,7 @@ Allowed(st) ==
   /\ st.k = "MACBEGIN" => Len(s.mtags) < 2
   /\ st.k = "MACEND" => Len(s.mtags) > 0
 
-Init == prog = <<>> /\ cs \in CaseModes /\ s = InitS(cs) /\ ob = {} /\ mode = "free"
+Init == prog = <<>> /\ cs \in CaseModes /\ s = InitS(cs, PINNED) /\ ob = {} /\ mode = "free"
 
 \* exhaustive alphabet for BFS (small)
 BfsAlphabet(i) ==
@@ -146,13 +146,23 @@ Closed(p) ==
   IN p \o [i \in 1..nm |-> [k |-> "MACEND"]] \o [i \in 1..ns |-> [k |-> "ENDSECTION", n |-> ""]]
 
 Words(o) == [k \in 1..Len(o) |-> o[k].v]
+\* does the machine with deviations D do what the manual demands of text p
+Conforms(D, p, X) ==
+  LET R == RunAll(cs, D, p) IN
+  /\ X.err => R.errs > 0
+  /\ R.errs > 0 => X.err \/ X.mayErr
+  /\ R.errs = 0 => /\ Len(R.out) = Len(X.words)
+                    /\ \A k \in 1..Len(X.words) : X.words[k].definite => R.out[k].v = X.words[k].v
 Record(p) ==
   LET X == Expect(cs, p)
-      R == RunAll(cs, p)
-      R2 == RunExtra(cs, p)
+      R == RunAll(cs, PINNED, p)
+      R2 == RunExtra(cs, PINNED, p)
   IN [cs |-> cs, prog |-> p, exp |-> X,
+      \* the machine of the pinned tree: errors, words of the last pass, words of one further pass
       mach |-> [errs |-> R.errs, kinds |-> R.ekinds, passes |-> R.pass, words |-> Words(R.out),
-                extra |-> IF R2.errs = 0 THEN Words(R2.out) ELSE <<>>]]
+                extra |-> IF R2.errs = 0 THEN Words(R2.out) ELSE <<>>],
+      \* which single repair makes the machine conform on this text (attribution of a deviation)
+      cause |-> {d \in X.devs : ~Conforms(PINNED, p, X) /\ Conforms(PINNED \ {d}, p, X)}]
 
 Dump == (EveryState \/ mode = "done") => PrintT(<<"BEH", ToJson(Record(Closed(prog)))>>)
 =============================================================================
